@@ -133,3 +133,11 @@ Theorem buggy_metadata_alias :
     observe (step w1 (OMetaSet 0 k)) o <> observe w1 o.
 Proof. exact metadata_alias_refuted. Qed.
 Print Assumptions buggy_metadata_alias.
+
+Theorem buggy_metadata_proxy_alias :
+  exists w c cls k,
+    let '(_, w1, o) := attrs_wrap_gen false meta_alias_proxy w c cls in
+    observe (step w1 (OMetaSet 0 k)) o <> observe w1 o /\
+    observe (step w1 (OMetaDel 0 "k1")) o <> observe w1 o.
+Proof. exact metadata_proxy_alias_refuted. Qed.
+Print Assumptions buggy_metadata_proxy_alias.
